@@ -3,6 +3,8 @@
 mod c10;
 mod c13;
 mod c14;
+mod c18;
+mod c19;
 pub mod netvalues;
 pub mod pipe;
 
@@ -12,6 +14,8 @@ fn main() {
         "C10" => c10::main(&env),
         "C13" => c13::main(&env),
         "C14" => c14::main(&env),
+        "C18" => c18::main(&env),
+        "C19" => c19::main(&env),
         p => {
             eprintln!("netprop: unknown property {p}");
             2
